@@ -10,7 +10,10 @@ SEPS = ["/", ".", "\\", "|"]
 SEP_MULTI = "::"
 
 # attribute columns: fixed type per key so that DataFrame columns are homogeneous
-ATTR_TYPES = {"v": "int", "w": "str", "f": "bool", "age": "int", "name": "str", "g": "float"}
+ATTR_TYPES = {"v": "int", "w": "str", "f": "bool", "age": "int", "name": "str", "g": "float",
+              # column labels that are no Python identifiers (a blank, a keyword, digits): pandas renames such labels in
+              # namedtuple-based row access; as attribute names they are perfectly legal
+              "first name": "str", "class": "int", "2024": "int"}
 # Float attributes: the models know null | int | str | bool.  A float column is carried through the model as an
 # OPAQUE string "~<repr>" (the constructors only copy values and drop missing ones, they never compute with them);
 # on the implementation side the cell is the real float.  NaN is the missing value and is never written as "~nan".
